@@ -31,6 +31,7 @@ class CompileGroup:
         self.per_crate = per_crate
         self.secs = 0.0
         self.rustc_processes = 0
+        self.current_crates = set()
         self.libs = {}  # name -> {id: module text}: library crates items may depend on
         self.lib_dropped = {}  # name -> {id: [errors]}: modules which did not compile
 
@@ -79,6 +80,7 @@ class CompileGroup:
 
     # -- emission ----------------------------------------------------------------------
     def _emit_crate(self, crate: str, items: list, use_control=False, no_std=False):
+        self.current_crates.add(crate)
         cdir = os.path.join(self.root, crate)
         src = os.path.join(cdir, "src")
         os.makedirs(src, exist_ok=True)
@@ -258,4 +260,5 @@ class CompileGroup:
             shutil.rmtree(iso, ignore_errors=True)
 
     def hooklog(self):
-        return build.load_hook(self.root)
+        # only crates emitted by this run (records of crates from earlier runs / seeds may linger in the store)
+        return build.load_hook(self.root, crates=self.current_crates | set(self.libs))
